@@ -204,7 +204,7 @@ def many_rounds_then_restart():
 
 # per-scenario overrides of the scenario configuration and pseudo steps appended after TLC has followed the schedule
 CFG = {'many_rounds_then_restart': {'max_round': 4}}
-APPEND = {'many_rounds_then_restart': [['RealStartProbe', 2]]}
+APPEND = {'many_rounds_then_restart': [['RealStartProbe', 2, 'realticker'], ['RealStartProbe', 1, 'realticker']]}
 
 ALL = {'many_rounds_then_restart': many_rounds_then_restart, 'lock_unlock': lock_unlock, 'relock_and_pol_proposal': relock_and_pol_proposal,
        'locked_without_proposal': locked_without_proposal, 'stale_polka_must_not_unlock': stale_polka_must_not_unlock}
